@@ -23,6 +23,7 @@ type ConcOpts struct {
 	NoCleanup  bool // C14: audit without calling anything after the clients returned
 	HotKeys    [2]int
 	AllowStall bool
+	StallP     int  // with AllowStall: one load plan in StallP parks its loader until the rest of the system is idle (default 12)
 	Resize     bool // a third of the runs: filler keys around the table's grow / shrink thresholds
 	Rounds     bool // C03: the clock only moves at barriers between rounds; deadline-aware lin model
 	SweepCheck bool // C13: advance the clock by more than a tick before the final CleanUp and demand a clean sweep
